@@ -89,9 +89,9 @@ var etherTable = map[uint16]int{
 }
 
 type portRule struct {
-	id       int
-	ports    []uint16
-	dstOnly  bool
+	id      int
+	ports   []uint16
+	dstOnly bool
 }
 
 // ordered UDP port rules (first match wins)
